@@ -375,6 +375,44 @@ def run(ctx):
                 elif impl_k == "SyntaxError" and gl != "SyntaxError":
                     ctx.violation("deterministic table: LR rejects, GLR gives %r"
                                   % (gl if not isinstance(gl, list) else "forest"), rep, key="det-glr-rej")
+    # theorem C04_parser_complete: evaluate its boolean hypothesis sep_tokens on the reference
+    # derivation of every sentence of a deterministic, validated, strategy-free table; where it
+    # holds the theorem says the parser model accepts -- and so must the impl
+    scases, smeta = [], []
+    model_tag = {}
+    for (kind, r, c, w), o in zip(meta, outs):
+        if kind == "parse":
+            model_tag[(id(c), w)] = o[0]
+    complete_ok = {id(c) for (kind, r, c, w), o in zip(meta, outs) if kind == "complete" and o == 1}
+    for r in results:
+        if r["gerr"] or not r.get("plain"):
+            continue
+        for c in r["combos"]:
+            if c["outcome"] != "ok" or not c["deterministic"] or c["ps"] or c["pse"] or id(c) not in complete_ok:
+                continue
+            pconf = [r["grammar"], c["table"], r["terms"], r["stop"], 1, 1, wsl, []]
+            for w, res in c["results"].items():
+                sent, trees = refcache.get((r["gtext"], w), (False, None))
+                if not sent or trees == "many" or not trees:
+                    continue
+                toks = [list(x) for x in refparse.leaves_of_shape(trees[0])]
+                scases.append((13, [pconf, [[ord(ch) for ch in w], r["rx"][w]], 0, toks]))
+                smeta.append((r, c, w, res))
+    souts = common.model_run(scases) if scases else []
+    st["theorem_parser_complete_hypotheses_evaluated"] = len(scases)
+    st["theorem_parser_complete_applies"] = 0
+    for (r, c, w, res), o in zip(smeta, souts):
+        if o != 1:
+            continue
+        st["theorem_parser_complete_applies"] += 1
+        rep = {"grammar": r["gtext"], "options": {"tables": "LALR" if c["tables"] == 1 else "SLR"}, "input": w}
+        if model_tag.get((id(c), w)) != 0:
+            ctx.violation("hypotheses of theorem C04_parser_complete hold but the extracted parser model does "
+                          "not accept (codec/extraction error)", rep, no_input=True, key="thm-model")
+        if res["kind"] not in ("ok", "skipped-after-timeouts"):
+            ctx.violation("Parser rejects (%s) a lexically separated sentence of a validated deterministic "
+                          "table, which the parser model provably accepts (C04_parser_complete)" % res["kind"],
+                          rep, key="thm-reject")
     cov = {
         "evaluations": st["parses"],
         "distinct_nontrivial": len(distinct),
